@@ -201,7 +201,7 @@ theorem verifyCanon_ok {e s : Tetraplet} (h : verifyCanon e s = .ok ()) : e = s 
 
 /-- a canon result of the merged data is accepted only if the tetraplet stored for it is exactly
 (the peer the instruction resolves, "", "", "") -/
-theorem canonExecuted_ok {env : Env} {canonName : String} {peer : Value} {cid : Cid} {c : Ctx}
+theorem canonExecuted_ok {env : Env} {canonName : CanonTarget} {peer : Value} {cid : Cid} {c : Ctx}
     (h : (canonExecuted env canonName peer cid c).1 = .ok ()) :
     ∃ peerId agg, resolveToString c peer = .ok peerId ∧ lookup c.cid.canonResults cid = some agg ∧
       getTetrapletByCid c.cid agg.tetraplet = .ok ({ peerPk := peerId } : Tetraplet) := by
@@ -229,7 +229,7 @@ theorem canonExecuted_ok {env : Env} {canonName : String} {peer : Value} {cid : 
           exact ⟨peerId, agg, rfl, rfl, by rw [this]; exact ht⟩
 
 /-- and rejected with `InstructionParametersMismatch`, context untouched, when it differs -/
-theorem canonExecuted_mismatch {env : Env} {canonName : String} {peer : Value} {cid : Cid} {c : Ctx}
+theorem canonExecuted_mismatch {env : Env} {canonName : CanonTarget} {peer : Value} {cid : Cid} {c : Ctx}
     {peerId : String} {agg : CanonResultAgg} {t : Tetraplet}
     (hp : resolveToString c peer = .ok peerId) (hl : lookup c.cid.canonResults cid = some agg)
     (ht : getTetrapletByCid c.cid agg.tetraplet = .ok t) (hne : ({ peerPk := peerId } : Tetraplet) ≠ t) :
